@@ -202,6 +202,16 @@ def run(ck, cases, tier, compile_n):
             continue
         cons.add_case(cid, "#![allow(warnings)]\n" + r["tokens"], ident[0], kinds=("vars",))
         cmeta[cid] = (c, text, opname)
+    # an operation that declares no variables: the request body still has exactly the three members
+    novars_text = "query NoVars {\n  f1\n}\n"
+    rs, _ = vlib.gqlv("gen", [{"id": "novars", "schema_path": spath, "query": novars_text, "want_tokens": True,
+                               "options": {"mode": "cli", "module_visibility": "pub", "variables_derives": "Deserialize"}}])
+    if rs[0]["status"] == "ok":
+        cons.add_case("novars", "#![allow(warnings)]\n" + rs[0]["tokens"], "NoVars", kinds=("vars",))
+        cmeta["novars"] = ({"ops": ["NoVars"], "requested": "", "normalization": "none", "mode": "cli", "novars": True}, novars_text, "NoVars")
+    else:
+        ck.violation("novars-gen", {"query": novars_text, "observed": rs[0]}, "C05: generation failed for an operation without variables: %s" % rs[0].get("msg"),
+                     case_key="novars")
     if cmeta:
         errs = cons.build()
         vjobs = []
@@ -209,6 +219,9 @@ def run(ck, cases, tier, compile_n):
             if cid in errs:
                 ck.violation("compile-%s" % cid, {"case": c, "query": text, "errors": errs[cid][:3]},
                              "C05: generated module does not compile: %s" % errs[cid][0][:200], case_key="compile")
+                continue
+            if c.get("novars"):
+                vjobs.append({"id": cid, "case": cid, "kind": "vars", "input": None})
                 continue
             k = c["ops"].index(opname) + 1
             vjobs.append({"id": cid, "case": cid, "kind": "vars", "input": {"v%d" % k: 5, "w": "x"}})
@@ -218,6 +231,8 @@ def run(ck, cases, tier, compile_n):
             ck.count()
             k = c["ops"].index(opname) + 1
             want = {"variables": {"v%d" % k: 5, "w": "x"}, "query": text, "operationName": opname}
+            if c.get("novars"):
+                want = {"variables": None, "query": text, "operationName": opname}
             if res.get("ok") != want:
                 ck.violation("body-%s" % cid, {"case": c, "query": text, "observed": res, "expected": want},
                              "C05: serialised build_query is %s, expected exactly %s" % (
